@@ -17,7 +17,7 @@ package fasthttp
 //@     i == 15 ? 1000000000000000 : i == 16 ? 10000000000000000 : i == 17 ? 100000000000000000 : 1000000000000000000
 
 //@ func parseUintBuf results v n err
-//@   property C30
+//@   property C30 C08
 //@   mode wrap
 //@   intsize 64 32
 //@   ensures[exact]     err == nil ==> 0 < n && n <= len(b) && alldigits(b, n) && v == decval(b, n) && 0 <= v
@@ -33,7 +33,7 @@ package fasthttp
 //@     invariant[small]  i <= maxSafeIntDigits ==> v < pow10(i)
 
 //@ func ParseUint results v err
-//@   property C30 C24
+//@   property C30 C24 C08
 //@   intsize 64 32
 //@   ensures[exact]    err == nil ==> len(buf) > 0 && alldigits(buf, len(buf)) && v == decval(buf, len(buf)) && 0 <= v
 //@   ensures[complete] err != nil ==> len(buf) == 0 || !alldigits(buf, len(buf)) ||
@@ -48,7 +48,7 @@ package fasthttp
 // readHexInt: at most maxHexIntChars hex digits are accumulated, the accumulator never overflows an int
 // (so the value is never wrapped or negative), longer numbers are rejected.
 //@ func readHexInt results v err
-//@   property C30
+//@   property C30 C08
 //@   intsize 64 32
 //@   noterm
 //@   uses lemma byteTables
@@ -61,14 +61,14 @@ package fasthttp
 // ---- date and IP codecs (C31) ----
 
 //@ func parse2Digits results v ok
-//@   property C31
+//@   property C31 C08
 //@   pure
 //@   ensures[accepts-digits] ok == (isdigit(a) && isdigit(b))
 //@   ensures[value] ok ==> v == (a - 48) * 10 + (b - 48)
 //@   ensures[reject] !ok ==> v == 0
 
 //@ func parse4Digits results v ok
-//@   property C31
+//@   property C31 C08
 //@   pure
 //@   ensures[accepts-digits] ok == (isdigit(a) && isdigit(b) && isdigit(c) && isdigit(d))
 //@   ensures[value] ok ==> v == (a - 48) * 1000 + (b - 48) * 100 + (c - 48) * 10 + (d - 48)
@@ -103,7 +103,7 @@ package fasthttp
 //@   ensures[reject] !ok ==> m == 0
 
 //@ func parseIPv4Octet results octet parsed err
-//@   property C31
+//@   property C31 C08
 //@   pure
 //@   ensures[accepts] err == nil ==> len(b) > 0 && alldigits(b, len(b)) && octet == decval(b, len(b)) && decval(b, len(b)) <= 255
 //@   ensures[rejects-empty] len(b) == 0 ==> err == errEmptyInt
